@@ -9,6 +9,7 @@ def gen(rng, tier):
     n1, n2 = (140, 25) if tier == "quick" else (3000, 400)
     cases = [core.case_from_struct(G.gen_single_bar(rng), Weight=core.weights(i)) for i in range(n1)]
     cases += [core.case_from_struct(G.gen_frame(rng), Weight=core.weights(i)) for i in range(n2)]
+    cases += [core.case_from_struct(G.gen_twins(rng), Weight=core.weights(i)) for i in range(6 if tier == "quick" else 100)]
     return cases
 
 
@@ -29,7 +30,7 @@ SPEC = {
     "oracle": oracle,
     "stages": [("B", lambda c, o, rng: S.stageB_case(o, bool(c.get("Weight"))), S.stageB_v, 6, None)],
     "nontrivial": lambda c, o: any(len(S.load_positions(b)) > 0 for b in o["Bars"]),
-    "rule": "single bars (any direction, rigid/pinned ends, 0-6 loads at positions k/10, k/6 displaced by 0, 5e-11, 1e-6, 5e-4, 9.9e-4, 1.1e-3, 2e-3 ...) and frames on a 3a x 4a grid; "
+    "rule": "single bars (any direction, rigid/pinned ends, 0-6 loads at positions k/10, k/6 displaced by 0, 5e-11, 1e-6, 5e-4, 9.9e-4, 1.1e-3, 2e-3 ...) and frames on a 3a x 4a grid; twin bars whose load positions agree to six or more decimals without being equal; "
             "own weight on every third case; non-trivial iff some bar has an interior load position; every case goes through StructureModel, the chain oracle and the Coq evaluation of preprocess_bar (stage B)",
     "assumptions": ["inkgeom TParam/FloatsEqual (|a-b| < 1e-10), Segment.PointAt, SubTParamCompleteRangeTimes modelled (external library)",
                     "generated positions keep 1e-13 away from the 1e-10 and 1e-9 away from the 1e-3 decision boundaries"],
